@@ -426,13 +426,15 @@ def gen_tasks(tier, seed):
     # concrete cross-check through the real classes: inject a status at one call of the real search
     inst = [
         ("MinFlowDecomp", {"edges": [("a", "b", 2), ("b", "c", 1), ("a", "c", 1), ("c", "d", 2), ("b", "d", 1)], "kwargs": {"weight_type": "int", "optimization_options": {"optimize_with_greedy": False, "lowerbound_k": 1}}}),
+        ("MinFlowDecomp", {"edges": [("a", "b", 2), ("b", "c", 1), ("a", "c", 1), ("c", "d", 2), ("b", "d", 1)], "kwargs": {"weight_type": "int", "optimization_options": {"optimize_with_greedy": False, "use_min_gen_set_lowerbound": True}}}),
+        ("MinFlowDecompCycles", {"edges": [("s", "a", 1), ("a", "b", 3), ("b", "a", 2), ("b", "t", 1), ("a", "a", 1)], "kwargs": {"weight_type": "int", "optimization_options": {"use_min_gen_set_lowerbound": True}}}),
         ("MinFlowDecompCycles", {"edges": [("s", "a", 1), ("a", "b", 3), ("b", "a", 2), ("b", "t", 1), ("a", "a", 1)], "kwargs": {"weight_type": "int"}}),
         ("MinPathCover", {"edges": [("a", "b"), ("a", "c"), ("b", "d"), ("c", "d"), ("a", "d")], "kwargs": {}}),
         ("MinPathCoverCycles", {"edges": [("s", "a"), ("s", "b"), ("a", "a"), ("b", "b"), ("a", "t"), ("b", "t")], "kwargs": {}}),
         ("MinGenSet", {"numbers": [1, 2, 4, 8], "total": 15}),
     ]
     for cls, spec_ in inst:
-        for status in ("kTimeLimit", "kInterrupt", "kUnknown"):
+        for status in ("kTimeLimit", "kInterrupt", "kUnknown", "custom-alarm"):
             tasks.append({"kind": "inject", "cls": cls, "spec": spec_, "status": status})
     for i, t in enumerate(tasks):
         t["tid"] = i
@@ -507,27 +509,49 @@ def _inject_task(task, res):
     cls = task["cls"]
     res["functions"] = [f"{cls}.solve (real k-models, status injected at the highspy boundary)"]
     # honest run to learn the number of solver invocations
+    alarm = task["status"] == "custom-alarm"
+    so = {"use_also_custom_timeout": True, "time_limit": 300} if alarm else None
+
     def build():
         if cls == "MinGenSet":
             import flowpaths as fp
-            return fp.MinGenSet(task["spec"]["numbers"], total=task["spec"]["total"], weight_type=int)
-        t = {"cls": cls, "edges": task["spec"]["edges"], "kwargs": task["spec"]["kwargs"]}
+            return fp.MinGenSet(task["spec"]["numbers"], total=task["spec"]["total"], weight_type=int, **({"solver_options": dict(so)} if so else {}))
+        t = {"cls": cls, "edges": task["spec"]["edges"], "kwargs": {**task["spec"]["kwargs"], **({"solver_options": dict(so)} if so else {})}}
         return models.construct(t)[0]
     with hx.capture() as sess:
         m = build()
         ok0 = m.solve()
     n = len(sess.snaps)
+    size0 = _sol_size(m) if ok0 else None
+    # invocations that belong to the min-generating-set lower-bound helper of a flow-decomposition search (not a "k" of the search)
+    helper = [cls != "MinGenSet" and any(nm.startswith("gen_set") for nm in lp.col_names) for lp in sess.snaps]
     for j in range(n):
         def answers(idx, lp, h, j=j):
+            if idx == j and alarm:
+                return {"alarm": True, "skip_native": False}      # the run completes natively, but the custom timeout fired meanwhile
             if idx == j:
                 return {"status": task["status"], "skip_native": True}
             return None
+        exited = False
         with hx.capture(answers) as sess2:
             m = build()
-            ok = m.solve()
+            try:
+                ok = m.solve()
+            except SystemExit:
+                ok, exited = False, True
         res["obligations"] += 1
         res["extra"]["traces_validated_against_impl"] = res["extra"].get("traces_validated_against_impl", 0) + 1
         bad = None
+        if exited:
+            bad = f"status {task['status']} at solver invocation {j} of {n}: solve() terminated the calling process (SystemExit) instead of reporting not-solved"
+            res["violations"].append({"signature": f"{cls}:process-exit-on-inconclusive-status", "summary": bad, "replay": {"task": task, "j": j}})
+            continue
+        if helper[j] and (ok or _solved_safe(m)) and _sol_size(m) == size0:
+            # an inconclusive lower-bound helper only weakens the starting k: the search itself still proved every smaller k
+            # infeasible, so the answer is the proven minimum (same size as the undisturbed run) -- what the property protects
+            res["extra"]["helper_run_inconclusive_same_minimum"] = res["extra"].get("helper_run_inconclusive_same_minimum", 0) + 1
+            res["discharged"] += 1
+            continue
         if ok or _solved_safe(m):
             bad = f"status {task['status']} at solver invocation {j} of {n}: search still reports solved"
         else:
@@ -581,6 +605,16 @@ def main(tier, seed):
     acc = core.run_tasks(run_task, tasks, deadline_s=170 if tier == "quick" else 1500)
     bounds = {"invocations_max": 5, "statuses": 5, "per_condition_timeout_s": tasks[0]["timeout"]}
     return core.finish(PID, tier, seed, LEVEL, acc, t0, RULE, ASSUMPTIONS, bounds, replay)
+
+
+def _sol_size(m):
+    try:
+        sol = m.get_solution()
+    except Exception:
+        return None
+    if isinstance(sol, dict):
+        return len(sol.get("paths", sol.get("walks", [])))
+    return len(sol)
 
 
 def _solved_safe(m):
